@@ -130,12 +130,58 @@ def pattern_commands(name: str, how: str):
     return out
 
 
+TWIN = [("decoy", "dec0y"), ("secret", "secr3t"), ("mail-old", "mail-0ld"), ("outside.txt", "0utside.txt")]
+
+
+def twin_of(name: str) -> str | None:
+    """The same name with every component that exists outside the mail root replaced by one of the same length that does not."""
+    t = name
+    for a, b in TWIN:
+        t = t.replace(a, b)
+    return t if t != name else None
+
+
+def transcript_of(tmpl, name0: str, how: str):
+    """Every response to the command list for this name, with the twin's spelling mapped back (so that an echoed name compares equal)."""
+    w = World(tmpl)
+    try:
+        name = name0.replace("{J}", str(w.jail))
+        w.start()
+        s = w.connect("A")
+        nm = enc(name, how)
+        out = []
+        for label, cmd in commands(nm) + pattern_commands(name, how) + commands_twin_first(nm):
+            if s.task.done():
+                s = w.connect("A2" + label)
+            r, resps = s.do(cmd, horizon=10)
+            raw = b"".join(x.raw for x in resps).replace(str(w.jail).encode(), b"{J}")
+            for a, b in TWIN:
+                raw = raw.replace(b.encode(), a.encode())
+            out.append((label, raw))
+        return out
+    finally:
+        w.close()
+
+
 def work(unit):
     tmpl, cases = unit
     fails = []
     n_eval = 0
     outcomes = set()
     for name0, how in cases:
+        # no response reveals the *existence* of anything outside: a name that leaves the root under every reading is answered the
+        # same whether or not the outside path exists (differential: the same world, the same commands, a twin name of equal
+        # length whose outside components do not exist)
+        tw = twin_of(name0)
+        if tw is not None and escapes_any_reading(name0.replace("{J}", "/J")) and how != "atom":
+            t1, t2 = transcript_of(tmpl, name0, how), transcript_of(tmpl, tw, how)
+            n_eval += len(t1) + len(t2)
+            for (label, a), (_l2, b) in zip(t1, t2):
+                if a != b:
+                    fails.append(Failure(PROP, "C09.existence-revealed", {"cmd": label, "shape": shape(name0), "enc": how},
+                                         {"driver": "c09", "name": name0, "enc": how}, b[:200].decode("latin-1"), a[:200].decode("latin-1"),
+                                         [f"existing outside path: {name0}", f"twin that does not exist: {tw}"]))
+                    break
         w = World(tmpl)
         try:
             name = name0.replace("{J}", str(w.jail))
